@@ -72,6 +72,17 @@ def pool():
             extra.append((label + " via SplitResult", U(SplitResult(*u.__getstate__()[0]), encoded=True)))
         except (ValueError, TypeError):
             pass
+    from vlib.observe import observe
+    for label, u in members[3::13]:
+        try:
+            w = pickle.loads(pickle.dumps(u))
+            observe(w)          # every accessor read, hash included
+            extra.append((label + " observed, then with_fragment('g')", w.with_fragment("g")))
+            extra.append((label + " observed, then with_query('q=2')", w.with_query("q=2")))
+            extra.append((label + " observed, then with_path('/a')", w.with_path("/a")))
+            extra.append((label + " observed, then with_scheme('x')", w.with_scheme("x")))
+        except (ValueError, TypeError):
+            pass
     extra.append(("build http h.com", U.build(scheme="http", host="h.com")))
     extra.append(("build http h.com /", U.build(scheme="http", host="h.com", path="/")))
     extra.append(("build http h.com:80", U.build(scheme="http", host="h.com", port=80)))
